@@ -16,6 +16,7 @@
 #undef condition_variable
 #undef thread
 #undef atomic
+#undef atomic_flag
 #undef recursive_mutex
 #undef timed_mutex
 #undef recursive_timed_mutex
@@ -84,6 +85,7 @@ struct Session {
   std::vector<long> pct_points;
   long low_prio = -1;
   int last_kind = 0;
+  bool in_atomic = false;   // between sim_atomic_event and sim_atomic_after of the running thread ('tsi': the callback of the operation itself must not count again)
   long spin_steps = 0;   // steps that were retries (see ThreadRec::spin); budgeted separately
   bool enum_spur_done = false;
 };
@@ -696,7 +698,7 @@ void session_begin(const SchedConfig &cfg) {
   g_shadow.clear();
   next_mtx_id = 0; next_cv_id = 0;
   S.buf_base = S.ctrl_base = nullptr; S.nbuf = 0; S.bm.clear(); S.io_tid = -1;
-  S.last_kind = 0; S.spin_steps = 0;
+  S.last_kind = 0; S.spin_steps = 0; S.in_atomic = false;
   S.enum_spur_done = false;
   S.low_prio = -1;
   S.pct_points.clear();
@@ -786,10 +788,12 @@ void sim_atomic_event(const void *addr, int kind) {
   record(EV_ATOMIC, kind, 0);
   close_interval(S.cur);
   yield_point();
+  S.in_atomic = true;
 }
 void sim_atomic_after(const void *addr, int kind) {
   Busy busy_guard;
   if (!S.active) return;
+  S.in_atomic = false;
   ThreadRec *me = S.cur;
   std::vector<uint32_t> &vc = S.atom_vc[addr];
   if (vc.empty()) vc.assign(MAXT, 0);
@@ -799,6 +803,20 @@ void sim_atomic_after(const void *addr, int kind) {
     me->vc[me->id]++;
   }
 }
+
+} // namespace std
+namespace simsched {
+// 'tsi' builds: an atomic operation of instrumented code that did not come through sim_atomic (atomic_ref, GCC builtins, C
+// atomics): same treatment.  Returns whether atomic_cb_end has to be called.
+bool atomic_cb_begin(const void *a, int kind) {
+  if (!tl_sim || !S.active || g_busy || g_in_mem || !S.cur || S.in_atomic) return false;
+  std::sim_atomic_event(a, kind);
+  return true;
+}
+void atomic_cb_end(const void *a, int kind) { std::sim_atomic_after(a, kind); }
+} // namespace simsched
+namespace std {
+using namespace simsched;
 
 void sim_yield_event() {
   Busy busy_guard;
@@ -1001,6 +1019,7 @@ void sim_thread::detach() {
 }
 
 sim_thread::id sim_thread::get_id() const noexcept { return rec_ ? rec_->real.get_id() : id(); }
+sim_thread::native_handle_type sim_thread::native_handle() { return rec_ ? rec_->real.native_handle() : pthread_t(); }
 
 } // namespace std
 
